@@ -78,6 +78,10 @@ impl<'a, 'tcx> Cx<'a, 'tcx> {
                 ProjectionElem::Downcast(sym, v) => { let _ = write!(o, "{{\"k\":\"downcast\",\"variant\":{},\"vidx\":{}}}", esc(&sym.map(|s| s.to_string()).unwrap_or_default()), v.as_usize()); }
                 ProjectionElem::Index(l) => { let _ = write!(o, "{{\"k\":\"index\",\"local\":{}}}", l.as_usize()); }
                 ProjectionElem::ConstantIndex { offset, min_length, from_end } => { let _ = write!(o, "{{\"k\":\"cidx\",\"off\":{},\"min\":{},\"from_end\":{}}}", offset, min_length, from_end); }
+                ProjectionElem::Subslice { from, to, from_end } => {
+                    let alen: i64 = if let ty::Array(_, n) = bty.ty.kind() { n.try_to_target_usize(self.tcx).map(|x| x as i64).unwrap_or(-1) } else { -1 };
+                    let _ = write!(o, "{{\"k\":\"subslice\",\"from\":{},\"to\":{},\"from_end\":{},\"array_len\":{}}}", from, to, from_end, alen);
+                }
                 other => { let _ = write!(o, "{{\"k\":\"other\",\"dbg\":{}}}", esc(&format!("{:?}", other))); }
             }
         }
